@@ -3,6 +3,7 @@ open Verif.Props.C07
 #print axioms minify_events
 #print axioms numId_ok
 #print axioms jsonNum_ok
+#print axioms jsonNum_json
 #print axioms jsonNum_value
 #print axioms jsonNum_keep
 #print axioms parse_render
@@ -11,8 +12,6 @@ open Verif.Props.C07
 #print axioms C07_shape
 #print axioms C07_keepNumbers
 #print axioms C07_length
-#print axioms C07_length_bound
-#print axioms C07_length_partial
+#print axioms C07_length_full
 #print axioms C07_length_keep
 #print axioms numCE_ok
-#print axioms C07_length_counterexample
